@@ -31,11 +31,38 @@ type Prop struct {
 
 var all = map[string]*Prop{}
 
+type extension struct {
+	run     func(c *rt.Ctx)
+	mutants []Mutant
+	decides string
+}
+
+var extensions = map[string][]extension{}
+var extended = map[string]bool{}
+
+// Extend adds cross-cutting rules (and their mutants) to a property registered in another file.
+func Extend(id, decides string, run func(c *rt.Ctx), mutants ...Mutant) {
+	extensions[id] = append(extensions[id], extension{run, mutants, decides})
+}
+
 // Register adds a property checker.
 func Register(p *Prop) { all[p.ID] = p }
 
 // Get returns a property checker.
-func Get(id string) *Prop { return all[id] }
+func Get(id string) *Prop {
+	p := all[id]
+	if p == nil || extended[id] {
+		return p
+	}
+	extended[id] = true
+	for _, e := range extensions[id] {
+		base := p.Run
+		p.Run = func(c *rt.Ctx) { base(c); e.run(c) }
+		p.Mutants = append(p.Mutants, e.mutants...)
+		p.Decides += " " + e.decides
+	}
+	return p
+}
 
 // IDs lists registered property ids.
 func IDs() []string {
